@@ -7,7 +7,8 @@ on non-live states; (R3) is_end_stream is true only for a consumed one-shot,
 owed bytes == 0, or the reader's table of C11.R3; (R4) the fields those answers
 read are the accounted quantities (C01.R3/R5 owed bytes, C08.R3/R4 queued bytes,
 C20 terminal absorption; an error of the entity's stream, which does not end
-that stream, does not zero the owed bytes); (R5) all Body constructors are crate-internal or the
+that stream, does not zero the owed bytes; the forwarding layers hand every answer
+on unchanged); (R5) all Body constructors are crate-internal or the
 public one-shot conversions.  Does not decide: entities that break their contract."""
 from . import chunker as CH
 from . import bodyrules as BR
@@ -28,3 +29,4 @@ def run(ctx):
     MP.constructor_inv(ctx, "C12.R4.mp")
     MP.stream_invariant(ctx, "C12.R4.mp")
     BR.body_constructors(ctx, "C12.R5")
+    BR.layers_transparent(ctx, "C12.R4.layers")
